@@ -117,7 +117,9 @@ def grew(init_len, ops, alias_after=0):
 KEYS = [("0", ("n", 0.0)), ("0 * -1", ("n", 0.0)), ("1", ("n", 1.0)), ("2 / 2", ("n", 1.0)), ("0.5", ("n", 0.5)), ("1e21", ("n", 1e21)), ("-1", ("n", -1.0)),
         ("4294967296", ("n", 4294967296.0)), ("0.1 + 0.2", ("n", 0.1 + 0.2)), ("0.3", ("n", 0.3)), ("true", ("b", True)), ("false", ("b", False)), ("nil", ("nil",)),
         ("''", ("s", "")), ("'a'", ("s", "a")), ("'' + 'a'", ("s", "a")), ("'0'", ("s", "0")), ("'1'", ("s", "1")), ("o", ("o", 1)), ("o2", ("o", 1)), ("p", ("o", 2)),
-        ("0 / 0", ("nan",))]
+        ("0 / 0", ("nan",)),
+        # a string that was held only by a collecting native's temporary root while a collection ran inside that native, and the same characters built afterwards
+        ("4.times().map(|j| { if j == 2 { print('@@gc full'); } return 'q' + j.str(); }).list()[0]", ("s", "q0")), ("'q' + [0][0].str()", ("s", "q0"))]
 KEY_SIZES = [0, 20, 150, 600]
 
 
